@@ -118,6 +118,13 @@ def HOp.Plain (S : List UInt8) (i : Int) : HOp → Prop
       (p.rst = true → p.syn = false ∧ p.dataSeq + p.bytes.length = i + 1 + S.length)
   | _ => False
 
+/-- Hypotheses of the no-loss theorem on one operation: any flush step; a segment consistent with `S`, `i` that the
+    stream accepts (any page limit); RST only at the end of the sender's stream and not together with SYN. -/
+def HOp.Fed (S : List UInt8) (i : Int) : HOp → Prop
+  | .seg p acc _ _ _ => SegOK S i p ∧ acc = 1 ∧
+      (p.rst = true → p.syn = false ∧ p.dataSeq + p.bytes.length = i + 1 + S.length)
+  | _ => True
+
 def HOp.isSyn : HOp → Bool
   | .seg p _ _ _ _ => p.syn
   | _ => false
